@@ -175,6 +175,10 @@ def _run(tier, seed):
                 m = dict(gmeta[l["case"]], content=l.get("content"))
                 vio.append(_pipe.violation({**m, "v": l["v"]}, l["v"]["c04"], "machine-all-input-patterns", "C04"))
 
+    n_unsup = sum(1 for l in lines.values() if "unsupported-node" in l["v"]["c04"])
+    if n_unsup:
+        print(f"NOTE property=C04 spec/IRMachine.tla cannot execute {n_unsup} histories (unsupported IR node): they are judged by "
+              "their native runs only")
     # native history, validated as a trace
     # (a kernel the machine could not judge - unsupported node, values outside the box - still runs natively: its
     # recorded history is validated below; only kernels with a real machine fault are kept away from native execution)
